@@ -199,6 +199,8 @@ static void cmd(char **tok,int nt){
       unsigned char *p=h[0].packet; if(h[0].bytes>=30){ ev_i("idver",p[7]|p[8]<<8|p[9]<<16|(long long)p[10]<<24); ev_i("idch",p[11]); ev_i("idrate",p[12]|p[13]<<8|p[14]<<16|(long long)p[15]<<24);
         ev_i("idmax",(int32_t)(p[16]|p[17]<<8|p[18]<<16|(uint32_t)p[19]<<24)); ev_i("idnom",(int32_t)(p[20]|p[21]<<8|p[22]<<16|(uint32_t)p[23]<<24)); ev_i("idmin",(int32_t)(p[24]|p[25]<<8|p[26]<<16|(uint32_t)p[27]<<24));
         ev_i("idbs0",1<<(p[28]&15)); ev_i("idbs1",1<<(p[28]>>4)); ev_i("idframe",p[29]&1); } }
+    if(ret==0&&nt>=3&&!strcmp(tok[2],"dump")){ /* the identification and setup packets byte by byte, for the strict reader (SetupParse.tla) */
+      for(int k=0;k<3;k+=2){ ev_arr_begin(k==0?"idbytes":"setupbytes"); for(long i=0;i<h[k].bytes;i++) ev_arr_i(h[k].packet[i]); ev_arr_end(); } }
     ev_vi(x); ev_end(); }
   else if(!strcmp(c,"ewrite")&&nt>=4){
     long n=atol(tok[2]); int sig=atoi(tok[3]); long chunk=nt>=5?atol(tok[4]):n; if(chunk<=0) chunk=n>0?n:1;
